@@ -27,8 +27,8 @@ Section Par.
   (* positions of a thread that only reads *)
   Definition reader (l : local) : Prop :=
     match l_pc l with
-    | PStart (OCall k) | PDispatch k | PRun _ k | PNext _ k => mem k K = true
-    | PN1 t _ k | PN2 t _ k => t = s_map s /\ mem k K = true
+    | PStart (OCall k) | PDispatch k | PRun _ _ k | PNext _ _ k => mem k K = true
+    | PN1 t _ _ k | PN2 t _ _ k => t = s_map s /\ mem k K = true
     | PDone _ => True
     | _ => False
     end.
@@ -36,14 +36,16 @@ Section Par.
   Lemma reader_step : forall l, reader l -> fst (step s l) = s /\ reader (snd (step s l)).
   Proof.
     intros [p tr] R. unfold reader in R; cbn [l_pc] in R.
-    destruct p as [[k|d|d]| |c a|k|t k cl|t k cl st ws|t k cl|h k|h k|t h k|t h k|r]; try contradiction;
+    destruct p as [[k|d|d]| |c a|k|t k cl|t k cl st ws|t k cl|h ob k|h ob k|t h ob k|t h ob k|r]; try contradiction;
       unfold tstep; cbn [l_pc l_trace].
     - rewrite warm_entry. cbn. split; auto.
     - destruct (warm_hit k R) as [h E]. rewrite E. cbn. split; auto.
     - destruct (m_body (meth h)); cbn; split; auto.
-    - rewrite warm_cn. destruct (alookup ckey_eqb (S h, k) (t_dict (tbl s (s_map s)))); cbn; split; auto.
+    - rewrite warm_cn. destruct (registered (tbl s (s_map s)) h ob); [|cbn; split; auto].
+      destruct (alookup ckey_eqb (S h, k) (t_dict (tbl s (s_map s)))); cbn; split; auto.
     - destruct R as [-> R]. destruct (warm_hit k R) as [h0 E]. rewrite E. cbn. split; auto.
     - destruct R as [-> R]. destruct (warm_hit k R) as [h0 E]. rewrite E.
+      destruct (alookup Nat.eqb k (t_all (tbl s (s_map s)))); cbn; [|split; [auto|exact I]].
       destruct (negb _); cbn; [split; auto|].
       destruct (alookup ckey_eqb (S h, k) (t_errs (tbl s (s_map s)))); cbn; [split; [auto|exact I]|].
       destruct (alookup ckey_eqb (S h, k) (t_dict (tbl s (s_map s)))); cbn; split; auto; exact I.
